@@ -1,4 +1,5 @@
 mod alloc;
+mod c14;
 mod chan;
 mod driver;
 mod forkrun;
@@ -11,7 +12,7 @@ use driver::{PropDef, Tier};
 static GLOBAL: alloc::CountingAlloc = alloc::CountingAlloc;
 
 fn props() -> Vec<&'static PropDef> {
-    vec![&chan::C06, &chan::C07, &chan::C08, &reg::C01, &reg::C02, &reg::C03, &reg::C04, &reg::C18]
+    vec![&chan::C06, &chan::C07, &chan::C08, &reg::C01, &reg::C02, &reg::C03, &reg::C04, &reg::C18, &c14::C14]
 }
 
 fn find(id: &str) -> &'static PropDef {
